@@ -377,7 +377,7 @@ def xlsx_sheet_xml(cells, rng, prefix=""):
         col_index = 0
         for c in sorted(p[1] for p in cells if p[0] == r):
             cell = cells[(r, c)]
-            if c == col_index and rng.random() < (0.35 if row_attr else 1.0):
+            if c == col_index and (cell.get("imp") or rng.random() < (0.35 if row_attr else 1.0)):
                 rattr = ""                # implicit position = (row_index, col_index)
             else:
                 name = a1(r, c)
